@@ -284,23 +284,23 @@ func (r *Run) evidence(res Result, extra map[string]interface{}, wall float64, s
 	cov := map[string]interface{}{
 		"explanation": "Static analysis of the type-checked source of " + r.W.Dir + " (go/packages, go/types, go/cfg, go/ssa); nothing is executed. Rules applied: " +
 			strings.Join(expl, " || "),
-		"obligations":            len(r.obls),
-		"discharged":             dis,
-		"rules":                  rules,
-		"instances":              inst,
-		"functions_analysed":     funcs,
-		"functions_analysed_n":   len(funcs),
-		"packages":               len(r.W.All),
-		"build_config":           r.W.Config,
-		"samples":                samples,
-		"known_findings":         res.Known,
-		"unlisted_violations":    res.Violations,
-		"stale_known_findings":   res.Stale,
-		"notes":                  r.notes,
-		"checker_cmd":            "bin/plushcheck -prop " + r.Prop + " -tier " + r.Tier,
-		"trusted_base":           []string{"go/types type checker", "golang.org/x/tools v0.29.0 (go/packages, go/cfg, go/ssa)", "the rule tables in /verif/checker"},
-		"exhaustive":             false,
-		"what_is_not_decided":    notDecided[r.Prop],
+		"obligations":          len(r.obls),
+		"discharged":           dis,
+		"rules":                rules,
+		"instances":            inst,
+		"functions_analysed":   funcs,
+		"functions_analysed_n": len(funcs),
+		"packages":             len(r.W.All),
+		"build_config":         r.W.Config,
+		"samples":              samples,
+		"known_findings":       res.Known,
+		"unlisted_violations":  res.Violations,
+		"stale_known_findings": res.Stale,
+		"notes":                r.notes,
+		"checker_cmd":          "bin/plushcheck -prop " + r.Prop + " -tier " + r.Tier,
+		"trusted_base":         []string{"go/types type checker", "golang.org/x/tools v0.29.0 (go/packages, go/cfg, go/ssa)", "the rule tables in /verif/checker"},
+		"exhaustive":           false,
+		"what_is_not_decided":  notDecided[r.Prop],
 	}
 	for k, v := range extra {
 		cov[k] = v
